@@ -83,6 +83,16 @@ def site(draw, counter):
                                    "tags": e["tags"]}])
         else:
             parts.append(["lit", draw(st.sampled_from(LIT[base]))])
+    # escaped interpolations ($${...} stands for the text ${...}) at the
+    # very start of the site and directly behind an interpolation
+    esc = ["$${x}", "$$$${a}", "$${a}$${b}", "$${", "$$"]
+    if draw(st.integers(0, 5)) == 0:
+        parts.insert(0, ["lit", draw(st.sampled_from(esc))])
+    if draw(st.integers(0, 5)) == 0:
+        idx = [i for i, p_ in enumerate(parts) if p_[0] == "expr"]
+        if idx:
+            parts.insert(draw(st.sampled_from(idx)) + 1,
+                         ["lit", draw(st.sampled_from(esc))])
     return {"ctx": ctx, "parts": parts}
 
 
